@@ -106,9 +106,10 @@ def run(tier, replay=None):
                         run_.diverge(tag + " initialize-refused", "initialize with version class %s: %s" % (v, o["err"]), dict(rp, observed=o))
                         ev.append({"e": "sinit", "v": v, "version": "other", "caps": []})
                         continue
-                    if o["version"] != VER[version]:
+                    allowed = set(VER.values()) if v == "padded" else {VER[version]}    # padded: lenient or strict reading
+                    if o["version"] not in allowed:
                         run_.diverge(tag + " negotiated=%s" % ("unsupported" if o["version"] not in VER.values() else "other-supported"),
-                                     "server answered version %r, must answer %s" % (o["version"][:40], VER[version]), dict(rp, observed=o))
+                                     "server answered version %r, must answer %s" % (o["version"][:40], sorted(allowed)), dict(rp, observed=o))
                     known = sorted(c for c in o["caps"] if c in ("tools", "prompts", "resources"))
                     if known != caps:
                         run_.diverge(tag + " capabilities", "advertised %s, registered at that time gives %s" % (known, caps), dict(rp, observed=o))
